@@ -5,6 +5,7 @@
 import Hive.Json
 import Hive.Canon
 import Hive.Monitor
+import Hive.MonitorTrav
 
 open Lean Hive
 
@@ -62,6 +63,24 @@ def handlePhase (st : DState) (op : String) (j : Json) : Except String Json := d
     let mon := monitorAll env post ++ viol04 cap post ++ viol04Step pre post ++ viol05Step isEl pre post evs
     pure (Json.mkObj [("diff", strs d), ("mon", strs mon)])
 
+/-- function-level record: `traverse(route, dt)` -/
+def handleTraverse (j : Json) : Except String Json := do
+  let oracle : Oracle ← optField j "oracle" {}
+  let route : Route ← getField j "route"
+  let dt : Nat ← getField j "dt"
+  let kind : String ← getField j "kind"          -- "ok" | "error" | "none"
+  let model := traverse oracle.geo route dt
+  match model, kind with
+  | .ok tr, "ok" => do
+    let exp : Route ← getField j "experienced"
+    let rem : Route ← getField j "remaining"
+    let km : Rat ← getField j "km"
+    let d := diffFlat (flatRoute "experienced" tr.experienced ++ flatRoute "remaining" tr.remaining ++ [("km", .q tr.km)])
+                      (flatRoute "experienced" exp ++ flatRoute "remaining" rem ++ [("km", .q km)])
+    pure (Json.mkObj [("diff", strs d), ("mon", strs (violTraversal route dt exp rem km))])
+  | .error, "error" => pure (Json.mkObj [("diff", strs []), ("mon", strs [])])
+  | m, k => pure (Json.mkObj [("diff", strs [s!"outcome: model={m.kind} impl={k}"]), ("mon", strs [])])
+
 def handle (st : DState) (line : String) : DState × Json :=
   match Json.parse line with
   | .error e => (st, Json.mkObj [("error", Json.str s!"parse: {e}")])
@@ -76,6 +95,10 @@ def handle (st : DState) (line : String) : DState × Json :=
       | .error e => (st, withId (Json.mkObj [("error", Json.str e)]))
     | "apply" | "update" | "tick" =>
       match handlePhase st op j with
+      | .ok r => (st, withId r)
+      | .error e => (st, withId (Json.mkObj [("error", Json.str e)]))
+    | "traverse" =>
+      match handleTraverse j with
       | .ok r => (st, withId r)
       | .error e => (st, withId (Json.mkObj [("error", Json.str e)]))
     | "monitor" =>
